@@ -1,6 +1,7 @@
 use crate::error::Error;
 use crate::vm::vcell::VCell;
 use crate::vm::Vm;
+use std::collections::HashSet;
 
 impl Vm {
     /// eqv
@@ -57,7 +58,23 @@ impl Vm {
     ///
     /// When applied to pairs, vectors and strings it recursively compares them.
     /// If applied to any other type, it compares with eqv?.
+    ///
+    /// It terminates on circular structure: two circular objects are equal
+    /// if their (infinite) unfoldings are.
     pub fn equal(&self, left: &VCell, right: &VCell) -> Result<bool, Error> {
+        self.equal_seen(left, right, &mut HashSet::new())
+    }
+
+    /// equal, given the pairs of heap locations (of pairs and vectors) whose
+    /// comparison has already begun: meeting such a pair of locations again
+    /// (a cycle, or shared structure) does not decide anything new, because
+    /// the first mismatch found anywhere makes the whole comparison false.
+    fn equal_seen(
+        &self,
+        left: &VCell,
+        right: &VCell,
+        seen: &mut HashSet<(usize, usize)>,
+    ) -> Result<bool, Error> {
         #[cfg(marwood_verif)]
         let _verif_depth = crate::vm::verif::depth::enter("equal", "equal");
         let mut left = left.clone();
@@ -65,6 +82,10 @@ impl Vm {
         if self.eqv(&left, &right)? {
             return Ok(true);
         }
+        let locations = match (&left, &right) {
+            (VCell::Ptr(left), VCell::Ptr(right)) => Some((*left, *right)),
+            _ => None,
+        };
         left = match left {
             VCell::Ptr(ptr) => self.heap.get_at_index(ptr).clone(),
             _ => left.clone(),
@@ -73,11 +94,18 @@ impl Vm {
             VCell::Ptr(ptr) => self.heap.get_at_index(ptr).clone(),
             _ => right.clone(),
         };
+        if (left.is_pair() && right.is_pair()) || (left.is_vector() && right.is_vector()) {
+            if let Some(locations) = locations {
+                if !seen.insert(locations) {
+                    return Ok(true);
+                }
+            }
+        }
         if left.is_pair() && right.is_pair() {
-            return self.compare_pair(left, right);
+            return self.compare_pair(left, right, seen);
         }
         if left.is_vector() && right.is_vector() {
-            return self.compare_vector(left, right);
+            return self.compare_vector(left, right, seen);
         }
         if left.is_string() && right.is_string() {
             return Ok(left.as_string()?.borrow().as_str() == right.as_string()?.borrow().as_str());
@@ -85,24 +113,39 @@ impl Vm {
         self.eqv(&left, &right)
     }
 
-    pub fn compare_pair(&self, mut left: VCell, mut right: VCell) -> Result<bool, Error> {
+    fn compare_pair(
+        &self,
+        mut left: VCell,
+        mut right: VCell,
+        seen: &mut HashSet<(usize, usize)>,
+    ) -> Result<bool, Error> {
         #[cfg(marwood_verif)]
         let _verif_depth = crate::vm::verif::depth::enter("equal", "compare_pair");
         loop {
             if !left.is_pair() || !right.is_pair() {
-                return self.equal(&left, &right);
+                return self.equal_seen(&left, &right, seen);
             }
             let lcar = left.as_car()?;
             let rcar = right.as_car()?;
-            if !self.equal(&lcar, &rcar)? {
+            if !self.equal_seen(&lcar, &rcar, seen)? {
                 return Ok(false);
             }
-            left = self.heap.get(&left.as_cdr()?);
-            right = self.heap.get(&right.as_cdr()?);
+            let lcdr = left.as_cdr()?;
+            let rcdr = right.as_cdr()?;
+            left = self.heap.get(&lcdr);
+            right = self.heap.get(&rcdr);
+            if left.is_pair() && right.is_pair() && !seen.insert((lcdr.as_ptr()?, rcdr.as_ptr()?)) {
+                return Ok(true);
+            }
         }
     }
 
-    pub fn compare_vector(&self, left: VCell, right: VCell) -> Result<bool, Error> {
+    fn compare_vector(
+        &self,
+        left: VCell,
+        right: VCell,
+        seen: &mut HashSet<(usize, usize)>,
+    ) -> Result<bool, Error> {
         #[cfg(marwood_verif)]
         let _verif_depth = crate::vm::verif::depth::enter("equal", "compare_vector");
         let left = left.as_vector()?;
@@ -111,7 +154,7 @@ impl Vm {
             return Ok(false);
         }
         for idx in 0..left.len() {
-            if !self.equal(&left.get(idx).unwrap(), &right.get(idx).unwrap())? {
+            if !self.equal_seen(&left.get(idx).unwrap(), &right.get(idx).unwrap(), seen)? {
                 return Ok(false);
             }
         }
